@@ -66,8 +66,9 @@ CLAIMS.update({
     'C02': dict(
         text='allows() is executed on labels of up to 4 (thorough 6) fully symbolic characters for a user class whose derived property values, '
              'rule registry and rule outcomes are ALL arbitrary functions chosen by the solver; the result must be exactly the first offender '
-             '(code point, character position, property) or the Missing/NotApplicable/Undefined error. Thorough adds both standard classes '
-             'end-to-end with the real registry and rules.',
+             '(code point, character position, property) or the Missing/NotApplicable/Undefined error. A second harness keeps the real registry shape '
+             'with every rule replaced by its RFC 5892 specification on the character array, so that its counterexamples exist on the real code and '
+             'replay natively. Thorough adds both standard classes end-to-end with the real registry and rules.',
         note='The clause about the standard classes is the composition with c03_registry and the C03 rule prologues; S-RULE stub (see evidence).',
         design='4 (C02)', technique=T2 + 'user-supplied class and rule registry as uninterpreted functions'),
     'C03': dict(
@@ -88,20 +89,22 @@ CLAIMS.update({
              '(FreeformClass, non-ASCII space mapping, NFC, non-empty); binding harness: NFC not NFKC, no case/width/directionality rule.',
         note='S-PIPE/S-STR; quick 1 character, thorough 2.', design='4 (pipelines)', technique=T2 + 'pipelines over a closed witness alphabet'),
     'C06': dict(
-        text='Nickname prepare/enforce against the statement\'s loop (validate, space rule, NFKC, non-empty; first + three re-applications) over '
+        text='Nickname prepare, and ONE and TWO applications of the enforcement rule function (stabilize replaced by "apply twice"; stabilize itself is '
+             'decided for every rule function by C13), against the statement (validate, space rule, NFKC, non-empty) over '
              'character arrays; the alphabet contains characters whose NFKC form introduces spaces (U+00B4) or DISALLOWED code points (U+3131), so '
-             'second rounds and re-validation matter; every accepted result is checked to be a fixed point.',
+             'second rounds and re-validation matter; a concrete two-round input runs the real loop; thorough runs the real loop symbolically and checks every accepted result is a fixed point.',
         note='S-PIPE/S-STR; quick 1 character plus a concrete two-round input, thorough 2.', design='4 (pipelines)',
         technique=T2 + 'pipelines over a closed witness alphabet, fixed-point oracle'),
     'C07': dict(
-        text='compare of all four profiles on all PAIRS of strings over the alphabet: equals equality of the specification\'s canonical forms, '
-             'first operand\'s error first (Nickname: rules + lowercase iterated to stability).',
+        text='compare of all four profiles with one symbolic operand (any string of at most 1 character over the alphabet) and one constant operand '
+             '("" second, "a" first, a class-rejected character first): equals equality of the specification\'s canonical forms, first operand\'s '
+             'error first (Nickname: two applications of rules + lowercase). Thorough: both operands symbolic.',
         note='S-PIPE/S-STR; quick: strings of at most 1 character, thorough 2. Reflexivity/symmetry/transitivity follow from equality of canonical forms.',
         design='4 (pipelines)', technique=T2 + 'pairs of symbolic strings over a closed alphabet'),
     'C08': dict(
         text='(i) every scalar value through the real std to_lowercase: no DISALLOWED target for an IdentifierClass-valid source (UNASSIGNED '
-             'targets = known finding); (ii) enforce(enforce(s)) is the same string or an error and no output code point is DISALLOWED/UNASSIGNED, '
-             'all four profiles over the alphabet.',
+             'targets = known finding); (ii) for the canonical form e that the specification assigns to enforce(y) (C04-C06 decide the real enforce '
+             'returns it), the real enforce(e) is e or an error and no code point of e is DISALLOWED/UNASSIGNED; three profiles quick, all four thorough.',
         note='Normalization introducing forbidden code points over all of Unicode is outside reach (only over the alphabet).',
         design='4 (pipelines)', technique=T2 + 'per-character Layer A on real std tables + pipelines over a closed alphabet'),
     'C09': dict(
@@ -122,8 +125,9 @@ CLAIMS.update({
         note='S-CP/S-VEC/S-FMT stubs; K = 3 quick, 4-5 thorough; what the emitted tables are for the pinned inputs is decided by the Layer A harnesses of C03/C09/C11/C12/C14.',
         design='4 (C15), 6', technique=T2 + 'generator state machines over symbolic entry sequences'),
     'C16': dict(
-        text='For every profile and string over the alphabet: static fast-invocation (lazy singleton), String input, Cow input and a long-lived '
-             'instance after another call all give the result of a fresh instance on &str. Sequential part only.',
+        text='For every profile and string over the alphabet, one API form per harness (static prepare/enforce/compare through the lazy singleton, '
+             'String input, Cow input, a long-lived instance after another call) against the specification that a fresh instance on &str is shown '
+             'to equal by C04-C07. Sequential part only.',
         note='Thread interleavings and racing first use are NOT claimed (Kani has no concurrency model; Once::call_once is stubbed).',
         design='4 (pipelines), 6', technique=T2 + 'API-form equivalence over a closed alphabet (sequential)'),
 })
